@@ -1,2 +1,93 @@
+// ops: allocation-failure schedules (C17). Output: "<result> live=<n> calls=<n> failed=<n> badfree=<n> | <trace>"
+#include <stdio.h>
+#include <stdlib.h>
+#include <string.h>
+#include "h3api.h"
+#include "h3Index.h"
 #include "drv_util.h"
-int ops_alloc(int n, char **a) { (void)n; (void)a; return 0; }
+#include "valloc.h"
+
+static void begin(char **a) {
+    verif_alloc_reset(); verif_alloc_trace_on = 1;
+    verif_alloc_fail_at = pI(a[1]); verif_alloc_fail_from = (int)pI(a[2]);
+}
+static void finish(void) {
+    verif_alloc_fail_at = 0; verif_alloc_trace_on = 0;
+    printf(" live=%ld calls=%ld failed=%ld badfree=%ld | %s\n", verif_alloc_live, verif_alloc_calls,
+           verif_alloc_failed, verif_alloc_bad_free, verif_alloc_trace);
+}
+static int parsePolygonA(int n, char **a, int at, GeoPolygon *p) {
+    if (at >= n) return -1;
+    int nl = (int)pI(a[at++]);
+    if (nl < 1) return -1;
+    GeoLoop *loops = xbuf((size_t)nl, sizeof(GeoLoop));
+    for (int l = 0; l < nl; l++) {
+        if (at >= n) return -1;
+        int nv = (int)pI(a[at++]);
+        if (at + 2 * nv > n) return -1;
+        loops[l].numVerts = nv;
+        loops[l].verts = xbuf((size_t)nv, sizeof(LatLng));
+        for (int v = 0; v < nv; v++) { loops[l].verts[v].lat = pD(a[at++]); loops[l].verts[v].lng = pD(a[at++]); }
+    }
+    p->geoloop = loops[0]; p->numHoles = nl - 1;
+    p->holes = nl > 1 ? xbuf((size_t)(nl - 1), sizeof(GeoLoop)) : NULL;
+    for (int l = 1; l < nl; l++) p->holes[l - 1] = loops[l];
+    free(loops);
+    return at;
+}
+static void freePolygonA(GeoPolygon *p) {
+    free(p->geoloop.verts);
+    for (int i = 0; i < p->numHoles; i++) free(p->holes[i].verts);
+    free(p->holes);
+}
+
+int ops_alloc(int n, char **a) {
+    const char *op = a[0];
+    if (isop(op, "adisk") && n == 6) {
+        // adisk failAt from h k wantDistances
+        H3Index h = pH(a[3]); int k = (int)pI(a[4]); int want = (int)pI(a[5]);
+        int64_t sz = 0; if (H3_EXPORT(maxGridDiskSize)(k, &sz)) { printf("err-size\n"); return 1; }
+        H3Index *out = xbuf((size_t)sz, sizeof(H3Index)); int *dist = xbuf((size_t)sz, sizeof(int));
+        begin(a);
+        H3Error e = want ? H3_EXPORT(gridDiskDistances)(h, k, out, dist) : H3_EXPORT(gridDisk)(h, k, out);
+        if (e) printf("err %d", (int)e); else { printf("ok "); outHs(out, sz); }
+        finish();
+        free(out); free(dist);
+        return 1;
+    }
+    if (isop(op, "aneighbors") && n == 5) {
+        int out = -7;
+        begin(a);
+        H3Error e = H3_EXPORT(areNeighborCells)(pH(a[3]), pH(a[4]), &out);
+        if (e) printf("err %d", (int)e); else printf("ok %d", out);
+        finish();
+        return 1;
+    }
+    if ((isop(op, "apolyfill") || isop(op, "apolyfillx") || isop(op, "amaxpolyfillx")) && n >= 6) {
+        // apolyfill failAt from res flags <polygon>
+        int res = (int)pI(a[3]); uint32_t flags = (uint32_t)pI(a[4]);
+        GeoPolygon p;
+        if (parsePolygonA(n, a, 5, &p) < 0) return 0;
+        int legacy = isop(op, "apolyfill");
+        int64_t sz = 0;
+        if (isop(op, "amaxpolyfillx")) {
+            begin(a);
+            H3Error e = H3_EXPORT(maxPolygonToCellsSizeExperimental)(&p, res, flags, &sz);
+            if (e) printf("err %d", (int)e); else printf("ok %" PRId64, sz);
+            finish(); freePolygonA(&p);
+            return 1;
+        }
+        H3Error e = legacy ? H3_EXPORT(maxPolygonToCellsSize)(&p, res, flags, &sz)
+                           : H3_EXPORT(maxPolygonToCellsSizeExperimental)(&p, res, flags, &sz);
+        if (e) { printf("err-size %d\n", (int)e); freePolygonA(&p); return 1; }
+        H3Index *out = xbuf((size_t)sz, sizeof(H3Index));
+        begin(a);
+        e = legacy ? H3_EXPORT(polygonToCells)(&p, res, flags, out)
+                   : H3_EXPORT(polygonToCellsExperimental)(&p, res, flags, sz, out);
+        if (e) printf("err %d", (int)e); else { printf("ok "); outHsSorted(out, sz); }
+        finish();
+        free(out); freePolygonA(&p);
+        return 1;
+    }
+    return 0;
+}
